@@ -130,7 +130,8 @@ def projEnum (e : EnumD) : List String :=
   e.reservedNames.flatMap (fun n => ["rn", hexOfStr n])
 
 def projMsg (m : MsgD) : List String :=
-  ["M", m.fullName, showBool01 m.mapEntry] ++
+  ["M", m.fullName, showBool01 m.mapEntry,
+   (match m.messageSet with | some true => "t" | some false => "f" | none => "-")] ++
   m.fields.flatMap (projField "f") ++
   m.extensions.flatMap (projField "x") ++
   m.oneofs.flatMap (fun o => ["o", o]) ++
